@@ -18,10 +18,10 @@ NA = {
  "C20": "A function of the source text and an offset: pure.",
 }
 checks = {
- "C15": dict(text="Seeded exploration: thousands of generated programs x seeded interleaved histories of host operations on 1-4 VMs of one Program, real compiler/linker/VM, every global of every live VM compared with an executable reference state machine after every event; defined run-time failures injected inside invocations; per-invocation liveness budget. Evidence for the seeds run, not proof.",
+ "C15": dict(text="Seeded exploration: thousands of generated programs (scalars, arrays, vectors as values, matrices, nested structs and arrays, pure / middle / parameter-mutating helpers, bounded recursion; one module or a library + main pair with locals shadowing imported globals) x seeded interleaved histories of host operations on 1-4 VMs of one or two Programs, real compiler/linker/VM; every global of every live VM is compared with an executable reference state machine after every event; defined run-time failures are injected inside invocations (also 30 activations deep, many per history); host-owned vector objects are passed again by identity; late VMs are inspected before their globals are set; invocations with an omitted argument are judged against a clean-room twin VM; per-invocation liveness budget. Evidence for the seeds run, not proof.",
              note="Trusts the reference interpreter sim/lang.py and the restriction of the program family documented in DESIGN.md (C15).",
              tech="deterministic simulation: seeded multi-VM operation histories with injected in-invocation failures vs. reference state machine"),
- "C16": dict(text="Seeded exploration: thousands of generated programs x partitions into 2-5 modules forming import DAGs (chains, diamonds, fan-in) x text layouts x seeded schedules of compiles (in-process and real nslc.py children with their own hash seeds), re-compilations, links under several add sets/orders and loader kinds (also through nslr.py), duplicate-definition steps and a second store generation, on a private simulated module store; every linked program is compared with the same functions compiled as one module, every Load(name) is logged (exactly-once), canonical programs are compared across add orders, duplicates must be rejected, Link() has a step budget. Evidence for the seeds run, not proof.",
+ "C16": dict(text="Seeded exploration: thousands of generated programs (exported functions, free overload families with up to 12 parameters, module-local helpers and structs, scalar / array / vector / struct globals used across modules) x partitions into 2-7 modules forming import DAGs (chains, diamonds, fan-in, umbrella modules without functions) x module names (also near-identical families) x text layouts (imports first / between / after, repeated) x seeded schedules on a private simulated module store: compiles (in-process and real nslc.py children with their own hash seeds), re-compilations before and between links, links under several add sets/orders and loader kinds (own loader object, the Linker's default loader, memory loaders, nslr.py - also started through a directory holding other builds), duplicate-definition steps and a second store generation with rotated names. Every linked program is compared with the same functions compiled as one module; every Load(name) is logged (exactly-once); canonical programs are compared across add orders; duplicates must be rejected; programs linked earlier are re-observed and a VM of them is kept in use across later links; Link() has a step budget. Evidence for the seeds run, not proof.",
              note="Self-consistency oracle: the one-module compilation is the reference. Cross-module references restricted to exported functions with scalar parameters and globals of directly imported modules. Four genuine defects found by this check were repaired in /repo (known_findings.json, status fixed).",
              tech="deterministic simulation: seeded compile/store/link schedules over a simulated module store, hash seeds, exactly-once load log, refinement against the one-module program"),
  "C18": dict(text="Seeded exploration: each run schedules 2-6 simulated OS processes (real child interpreters, one at a time), each with its own PYTHONHASHSEED, private working-tree copy whose PLY parser-table cache is valid / absent / stale / unwritable, cwd, and a history of 5-40 compilations with a fresh Compiler() per job over a corpus that includes rejected, raising and sys.exit-ing sources; a history check requires every observation (outcome class, SHA-256 of IR listing and wasm bytes) of one (source, options) key to be equal across positions, predecessors, processes, hash seeds, cache states and cwds. Evidence for the seeds run, not proof.",
